@@ -132,6 +132,11 @@ impl BufferedLineStream {
     pub(crate) fn get_ref(&self) -> &DualTcpStream {
         self.stream.get_ref()
     }
+
+    #[cfg(simple_irc_server_verif)]
+    pub(crate) fn verif_buffered(&self) -> usize {
+        self.buffer.len()
+    }
 }
 
 impl Stream for BufferedLineStream {
